@@ -1,6 +1,7 @@
 package main
 
 import (
+	"os"
 	"fmt"
 	"go/token"
 	"go/types"
@@ -36,6 +37,7 @@ type Obligation struct {
 	Result  *SolveResult
 	witness *Clause
 	raw     string // complete query text (lemmas)
+	Inherited bool // the obligation carries the function-level property list (no tag of its own)
 	exclude map[*Obligation]bool // batch members: their own assumption lines are left out
 }
 
@@ -145,6 +147,12 @@ type FnVC struct {
 	tagLines map[int][]int // line indices per tag
 	siteN   int
 	elemLocs map[string]bool
+	frameCPs []*frameCP
+	reachAnd map[string][]string // path condition -> path conditions it is a strengthening of
+	reachOr  map[string][]string // merged path condition -> its disjuncts
+	oblIDs   map[string]int
+	cpStop   map[string]bool // heap terms at which frame-axiom instantiation stops (a checkpoint fact covers the rest)
+	edgePos  map[string]string // branch condition name -> source position (for counterexample traces)
 	nilableLocs map[string]bool // element locations of containers declared `nilable`
 	skolems []skolem
 	okTerms map[string]okFact // Bool term of a comma-ok type assertion -> what it tests
@@ -158,7 +166,7 @@ type okFact struct {
 func newFnVC(e *Engine, f *ssa.Function, ct *Contract) *FnVC {
 	return &FnVC{eng: e, top: f, ct: ct, curTag: -1, anc: map[int]map[int]bool{}, heapTab: map[string]*heapInfo{},
 		strLits: map[string]string{}, gids: map[ssa.Value]int{}, notes: map[string]bool{}, ufDecl: map[string]bool{}, implDecl: map[string]bool{},
-		closures: map[string]*closureRec{}, ranges: map[*ssa.Range]*rangeRec{}, usedExternal: map[string]bool{}, usedContracts: map[string]bool{}, implTypes: map[string]types.Type{}, okTerms: map[string]okFact{}, elemLocs: map[string]bool{}, nilableLocs: map[string]bool{}}
+		closures: map[string]*closureRec{}, ranges: map[*ssa.Range]*rangeRec{}, usedExternal: map[string]bool{}, usedContracts: map[string]bool{}, implTypes: map[string]types.Type{}, okTerms: map[string]okFact{}, edgePos: map[string]string{}, elemLocs: map[string]bool{}, nilableLocs: map[string]bool{}}
 }
 
 func (fv *FnVC) emit(text string) {
@@ -249,8 +257,18 @@ func (fv *FnVC) outOfSubset(s string) {
 
 // oblige registers a proof obligation at the current point and then assumes it.
 func (fv *FnVC) oblige(id, kind string, props []string, guard, goal, clause string, pos token.Pos) *Obligation {
+	if fv.oblIDs == nil {
+		fv.oblIDs = map[string]int{}
+	}
+	fv.oblIDs[id]++
+	if c := fv.oblIDs[id]; c > 1 {
+		id = fmt.Sprintf("%s~%d", id, c) // the same site reached again (inlined callee, duplicated block)
+	}
 	o := &Obligation{ID: id, Kind: kind, Props: props, Func: funcKey(fv.top), Clause: clause, tag: fv.curTag,
 		nlines: len(fv.lines), guard: guard, goal: goal, fv: fv}
+	if fv.ct != nil && len(props) == len(fv.ct.Props) && (len(props) == 0 || &props[0] == &fv.ct.Props[0]) {
+		o.Inherited = true
+	}
 	if pos.IsValid() {
 		p := fv.eng.prog.Fset.Position(pos)
 		o.Pos = fmt.Sprintf("%s:%d", strings.TrimPrefix(p.Filename, fv.eng.repo+"/"), p.Line)
@@ -365,7 +383,7 @@ func (fv *FnVC) loadRaw(h *Heap, loc string) string {
 		return fv.loadExpanded(h, loc)
 	}
 	for _, hv := range h.havocs {
-		if fv.quiet > 0 && hv.calleeFrame {
+		if fv.quiet > 0 && hv.calleeFrame && os.Getenv("TGVC_SKIPFRAMES") != "" {
 			// loads made while evaluating assumed clauses do not need the callee-frame
 			// instances at their locations (omitting hypotheses is sound)
 			continue
@@ -404,7 +422,12 @@ func (fv *FnVC) instHavoc(hv *havoc, loc string) {
 	if fv.emittedHere(hv.inst, loc) {
 		return
 	}
-	inner := fv.loadRaw(hv.parent, loc)
+	var inner string
+	if fv.cpStop != nil && fv.cpStop[hv.parent.term] {
+		inner = "(select " + hv.parent.term + " " + loc + ")"
+	} else {
+		inner = fv.loadRaw(hv.parent, loc)
+	}
 	sel := "(select " + hv.sym + " " + loc + ")"
 	if hv.region == nil {
 		if hv.content != nil {
@@ -533,10 +556,12 @@ func (fv *FnVC) mergeStates(conds []string, sts []*State) *State {
 	if len(sts) == 1 {
 		s := sts[0].clone()
 		s.reach = fv.def("reach", "Bool", conds[0])
+		fv.noteAnd(s.reach, conds[0])
 		return s
 	}
 	out := &State{heaps: map[string]*Heap{}}
 	out.reach = fv.def("reach", "Bool", or(conds...))
+	fv.noteOr(out.reach, conds)
 	keys := map[string]bool{}
 	for _, s := range sts {
 		for k := range s.heaps {
@@ -1065,6 +1090,55 @@ func firstVerbIsW(f string) bool {
 			i++
 		}
 		return i < len(f) && f[i] == 'w'
+	}
+	return false
+}
+
+// path-condition implication, read off how the conditions were built
+func (fv *FnVC) noteAnd(name string, parents ...string) {
+	if fv.reachAnd == nil {
+		fv.reachAnd = map[string][]string{}
+	}
+	for _, p := range parents {
+		if p != name {
+			fv.reachAnd[name] = append(fv.reachAnd[name], p)
+		}
+	}
+}
+
+func (fv *FnVC) noteOr(name string, ds []string) {
+	if fv.reachOr == nil {
+		fv.reachOr = map[string][]string{}
+	}
+	if _, ok := fv.reachOr[name]; !ok {
+		fv.reachOr[name] = append([]string(nil), ds...)
+	}
+}
+
+func (fv *FnVC) reachImplies(a, b string) bool {
+	return fv.reachImplies1(a, b, map[string]bool{})
+}
+
+func (fv *FnVC) reachImplies1(a, b string, seen map[string]bool) bool {
+	if a == b || b == "true" || a == "false" {
+		return true
+	}
+	if seen[a] {
+		return false
+	}
+	seen[a] = true
+	for _, p := range fv.reachAnd[a] {
+		if fv.reachImplies1(p, b, seen) {
+			return true
+		}
+	}
+	if ds := fv.reachOr[a]; len(ds) > 0 {
+		for _, d := range ds {
+			if !fv.reachImplies1(d, b, map[string]bool{}) {
+				return false
+			}
+		}
+		return true
 	}
 	return false
 }
